@@ -19,6 +19,7 @@ use serde_json::{json, Value};
 use zcash_protocol::value::{BalanceError, ZatBalance, Zatoshis};
 
 const M: i128 = 2_100_000_000_000_000; // used only to *choose* interesting random inputs, never to judge
+const REP_MAX: i128 = 20_000; // longest long sum generated (the specification's REPMAX; the check validates the inputs)
 
 struct Out {
     r: Vec<String>,
@@ -74,6 +75,13 @@ fn p_usize(s: &str) -> usize {
 }
 fn p_nz(s: &str) -> NonZeroU64 {
     NonZeroU64::new(p_u64(s)).expect("harness: zero divisor")
+}
+/// Number of equal summands of a long sum. The bound is a harness-side guard against a malformed
+/// argument (memory), far above the specification's REPMAX.
+fn p_rep(s: &str) -> usize {
+    let n = p_usize(s);
+    assert!(n <= 1_000_000, "harness: repetition count {n} too large");
+    n
 }
 fn bytes8(b: &[u8]) -> [u8; 8] {
     <[u8; 8]>::try_from(b).expect("harness: 8 bytes expected")
@@ -135,6 +143,14 @@ fn eval(op: &str, a: &[String], b: &[u8]) -> Option<Out> {
         "B.sum" => { let v = mk_bs(a)?; run(move || opt_b(ZatBalance::sum(v))) }
         "B.isum" => { let v = mk_bs(a)?; run(move || opt_b(v.into_iter().sum::<Option<ZatBalance>>())) }
         "B.isum_ref" => { let v = mk_bs(a)?; run(move || opt_b(v.iter().sum::<Option<ZatBalance>>())) }
+        // long sums: the iterator is materialised (n copies of x [, then y]) and handed to the same public
+        // API as above
+        "B.sum_rep" => { let v = vec![mk_b(a0())?; p_rep(a1())]; run(move || opt_b(ZatBalance::sum(v))) }
+        "B.isum_rep" => { let v = vec![mk_b(a0())?; p_rep(a1())]; run(move || opt_b(v.into_iter().sum::<Option<ZatBalance>>())) }
+        "B.isum_ref_rep" => { let v = vec![mk_b(a0())?; p_rep(a1())]; run(move || opt_b(v.iter().sum::<Option<ZatBalance>>())) }
+        "B.sum_rep_then" => { let mut v = vec![mk_b(a0())?; p_rep(a1())]; v.push(mk_b(&a[2])?); run(move || opt_b(ZatBalance::sum(v))) }
+        "B.isum_rep_then" => { let mut v = vec![mk_b(a0())?; p_rep(a1())]; v.push(mk_b(&a[2])?); run(move || opt_b(v.into_iter().sum::<Option<ZatBalance>>())) }
+        "B.isum_ref_rep_then" => { let mut v = vec![mk_b(a0())?; p_rep(a1())]; v.push(mk_b(&a[2])?); run(move || opt_b(v.iter().sum::<Option<ZatBalance>>())) }
         // ------------------------------------------------------------------ Zatoshis
         "Z.zero" => run(|| vec![show_z(Zatoshis::ZERO)]),
         "Z.from_u64" => { let x = p_u64(a0()); run(move || res_z(Zatoshis::from_u64(x))) }
@@ -172,6 +188,8 @@ fn eval(op: &str, a: &[String], b: &[u8]) -> Option<Out> {
         "Z.mul_usize" => { let (x, k) = (mk_z(a0())?, p_usize(a1())); run(move || opt_z(x * k)) }
         "Z.isum" => { let v = mk_zs(a)?; run(move || opt_z(v.into_iter().sum::<Option<Zatoshis>>())) }
         "Z.isum_ref" => { let v = mk_zs(a)?; run(move || opt_z(v.iter().sum::<Option<Zatoshis>>())) }
+        "Z.isum_rep" => { let v = vec![mk_z(a0())?; p_rep(a1())]; run(move || opt_z(v.into_iter().sum::<Option<Zatoshis>>())) }
+        "Z.isum_ref_rep" => { let v = vec![mk_z(a0())?; p_rep(a1())]; run(move || opt_z(v.iter().sum::<Option<Zatoshis>>())) }
         "Z.div" => { let (x, d) = (mk_z(a0())?, p_nz(a1())); run(move || vec![show_z(x / d)]) }
         "Z.div_with_remainder" => {
             let (x, d) = (mk_z(a0())?, p_nz(a1()));
@@ -307,6 +325,49 @@ impl Gen {
         v
     }
 
+    /// summand of a long sum: mostly large, so that a few thousand copies carry the exact total past the
+    /// machine words
+    fn repval(&mut self, signed: bool) -> i128 {
+        let v = match self.rng.gen_range(0..8) {
+            0 => M,
+            1 => M - 1,
+            2 => M - self.rng.gen_range(0..=1_000_000),
+            3 => self.rng.gen_range(M / 2..=M),
+            4 => self.rng.gen_range(((1i128 << 64) / REP_MAX)..=M), // at least 2^64 / REP_MAX: the u64 boundary is reachable
+            5 => self.rng.gen_range(((1i128 << 63) / REP_MAX)..=M),
+            _ => self.zv(),
+        };
+        let v = Self::clamp(v, 0, M);
+        if signed && self.rng.gen_bool(0.5) { -v } else { v }
+    }
+    /// length of a long sum of copies of v: short, anywhere, next to the lengths at which the exact total
+    /// crosses MAX_MONEY / i64::MAX / u64::MAX / i64::MAX + 2^64 / 2 * 2^64, or a *wrap target* (the exact total is
+    /// outside the machine word but its residue modulo 2^64 is a valid amount)
+    fn repv(&mut self, v: i128, signed: bool) -> i128 {
+        let av = v.abs();
+        let near = |g: &mut Self, bound: i128| bound / av + g.rng.gen_range(-1..=2);
+        let n = match self.rng.gen_range(0..10) {
+            0 => self.rng.gen_range(0..=12),
+            1 => (i64::MAX as i128) / M + self.rng.gen_range(-2..=3),
+            2 => (u64::MAX as i128) / M + self.rng.gen_range(-2..=3),
+            3 if av != 0 => near(self, M),
+            4 if av != 0 => near(self, i64::MAX as i128),
+            5 if av != 0 => near(self, u64::MAX as i128),
+            6 if av != 0 => { let b = if self.rng.gen_bool(0.5) { 3i128 << 63 } else { 1i128 << 65 }; near(self, b) }
+            7 | 8 if av != 0 => {
+                let word = if signed && self.rng.gen_bool(0.5) { i64::MAX as i128 } else { u64::MAX as i128 };
+                let hits: Vec<i128> = (1..=REP_MAX).filter(|n| {
+                    let t = n * av;
+                    let w = (t as u64) as i128; // residue modulo 2^64
+                    t > word && (w <= M || (signed && (1i128 << 64) - w <= M))
+                }).collect();
+                if hits.is_empty() { self.rng.gen_range(0..=REP_MAX) } else { hits[self.rng.gen_range(0..hits.len())] }
+            }
+            _ => self.rng.gen_range(0..=REP_MAX),
+        };
+        Self::clamp(n, 0, REP_MAX)
+    }
+
     /// random argument tuple for `sig`; returns (a, b)
     fn tuple(&mut self, sig: &[String]) -> (Vec<String>, Vec<u8>) {
         let s = |v: i128| v.to_string();
@@ -328,6 +389,23 @@ impl Gen {
                     b[..8].copy_from_slice(&p.to_le_bytes());
                 }
                 (vec![], b)
+            }
+            [x, "rep"] => {
+                let signed = *x == "B";
+                let v = self.repval(signed);
+                let n = self.repv(v, signed);
+                (vec![s(v), s(n)], vec![])
+            }
+            ["B", "rep", "B"] => {
+                // n copies of v, then w; half of the time w pulls the total back next to a bound
+                let v = if self.rng.gen_bool(0.5) { self.repval(true) } else { self.bv() };
+                let n = self.repv(v, true);
+                let w = if self.rng.gen_bool(0.5) { self.bv() } else {
+                    let bound = match self.rng.gen_range(0..3) { 0 => M, 1 => -M, _ => 0 };
+                    let w = bound - n * v + self.small();
+                    if (-M..=M).contains(&w) { w } else { self.bv() }
+                };
+                (vec![s(v), s(n), s(w)], vec![])
             }
             [x, y] => {
                 let (lo_x, absent) = match *x { "Z" => (0, false), "B" => (-M, false), "oZ" => (0, self.rng.gen_range(0..10) == 0), "oB" => (-M, self.rng.gen_range(0..10) == 0), o => panic!("harness: type {o}") };
